@@ -311,25 +311,44 @@ func Enumerate(sys System, seeds [][]Op, depth int, cfg Config) Stats {
 		}
 		jobs = append(jobs, job{path: append([]Op(nil), s...), next: r.Next, left: depth})
 	}
-	for lvl := 0; lvl < 2; lvl++ {
-		var nj []job
-		for _, j := range jobs {
-			if j.left == 0 {
-				continue
-			}
-			for _, op := range j.next {
-				p := make([]Op, len(j.path)+1)
-				copy(p, j.path)
-				p[len(j.path)] = op
-				r := sys.Run(p)
-				trans++
-				checks += int64(r.Checks)
-				if r.Viol != nil {
-					addViol(p, r.Viol)
-					continue
+	// Expand breadth-first (in parallel) until there are enough independent jobs, then DFS.
+	for lvl := 0; lvl < depth && len(jobs) < 64*workers; lvl++ {
+		results := make([][]job, len(jobs))
+		var jidx int64 = -1
+		var ewg sync.WaitGroup
+		for w := 0; w < workers; w++ {
+			ewg.Add(1)
+			go func() {
+				defer ewg.Done()
+				for {
+					ji := atomic.AddInt64(&jidx, 1)
+					if ji >= int64(len(jobs)) {
+						return
+					}
+					j := jobs[ji]
+					if j.left == 0 {
+						continue
+					}
+					for _, op := range j.next {
+						p := make([]Op, len(j.path)+1)
+						copy(p, j.path)
+						p[len(j.path)] = op
+						r := sys.Run(p)
+						atomic.AddInt64(&trans, 1)
+						atomic.AddInt64(&checks, int64(r.Checks))
+						if r.Viol != nil {
+							addViol(p, r.Viol)
+							continue
+						}
+						results[ji] = append(results[ji], job{path: p, next: r.Next, left: j.left - 1})
+					}
 				}
-				nj = append(nj, job{path: p, next: r.Next, left: j.left - 1})
-			}
+			}()
+		}
+		ewg.Wait()
+		var nj []job
+		for _, r := range results {
+			nj = append(nj, r...)
 		}
 		jobs = nj
 	}
